@@ -443,16 +443,27 @@ def gen_rp(rng, n, floats=None):
 
 
 def rank_hypothesis(ctx, reqs, impl, arr, exact_ok):
-    """hypothesis of remap_tie_order_independent / remap_pairs_are_sorted_pairs: what numpy's
-    `a.argsort(axis=1).argsort(axis=1)` returns for an array with ties is a `RankOf` (decided by the
-    driver on numpy's own rank array)"""
+    """hypothesis of the rank-remapping theorems.  Round 5f: the only thing taken from numpy is
+    that each of the two `argsort` calls in `a.argsort(axis=1).argsort(axis=1)` returns AN argsort
+    of its argument (`IsArgsort` / `IsArgsortNat`: a permutation of the index range along which the
+    argument is non-decreasing, ties in any order) -- decided by the driver on numpy's own two index
+    arrays for every row with ties.  That the second array is then a `RankOf` is the theorem
+    `argsort_argsort_is_rank` (Properties/C15.lean); the round-4 evaluation of `RankOf` on numpy's
+    rank array is kept as a redundant cross-check of that theorem's conclusion (same rows, same
+    arrays, no new random stream)."""
     arr = np.asarray(arr)
     if not exact_ok or not np.isfinite(np.asarray(arr, dtype=float)).all() or not has_ties(arr):
         return
-    rk = arr.argsort(axis=1).argsort(axis=1)
+    first = arr.argsort(axis=1)                 # numpy's first argsort (tie order unspecified)
+    rk = first.argsort(axis=1)                  # == arr.argsort(axis=1).argsort(axis=1)
     for i in range(arr.shape[0]):
         if len(set(arr[i].tolist())) < arr.shape[1]:
-            reqs.append(f"rankof {enc_vec(arr[i])} {enc_ivec(rk[i])}")
+            reqs.append(f"isargsort {enc_vec(arr[i])} {enc_ivec(first[i])}")
+            impl.append("1")
+            reqs.append(f"isargsortnat {enc_ivec(first[i])} {enc_ivec(rk[i])}")
+            impl.append("1")
+            ctx.count("gen:numpy-argsorts-of-tied-row-are-IsArgsort")
+            reqs.append(f"rankof {enc_vec(arr[i])} {enc_ivec(rk[i])}")     # theorem's conclusion
             impl.append("1")
             reqs.append(f"rankof_model {enc_vec(arr[i])}")      # the model's own stable ranks
             impl.append("1")
@@ -1168,6 +1179,18 @@ def run(ctx):
                    f"({len(reqs)} requests)", "correspondence", not bad,
                    "\n".join(f"{reqs[i][:400]} :: model={str(m)[:200]} impl={str(x)[:200]}"
                              for i, m, x in bad[:5]))
+    # round 5f: the library hypothesis of the rank-remapping theorems is now only "each numpy argsort
+    # returns AN argsort" (IsArgsort / IsArgsortNat, decided by the driver on numpy's own index
+    # arrays); RankOf of the double argsort follows by the theorem argsort_argsort_is_rank
+    arg_idx = {i for i, r in enumerate(reqs) if r.startswith(("isargsort ", "isargsortnat "))}
+    arg_bad = [b for b in bad if b[0] in arg_idx]
+    ctx.obligation("hypothesis of argsort_argsort_is_rank / remap_*_of_argsorts: numpy's first argsort "
+                   "of every ranked row with ties is an IsArgsort of the row and its second argsort an "
+                   "IsArgsortNat of the first (the rest -- the double argsort is a RankOf -- is a theorem)",
+                   "correspondence", bool(arg_idx) and not arg_bad,
+                   "\n".join(f"{reqs[i][:400]} :: model={m} impl={x}" for i, m, x in arg_bad[:5])
+                   or "no row with ties was generated")
+    ctx.extra["argsort_hypothesis_rows"] = len(arg_idx) // 2
     ctx.extra["requests_compared"] = len(reqs) + len(freqs)
 
     ctx.extra["requests_compared"] += len(sreqs)
